@@ -179,6 +179,17 @@ impl Invlpgb {
         })
     }
 
+    /// Verification hook (only with `--cfg x86_64_verif`): build an `Invlpgb` with the given
+    /// processor limits without requiring CPL 0 or CPUID support.
+    #[cfg(x86_64_verif)]
+    pub fn verif_new(invlpgb_count_max: u16, tlb_flush_nested: bool, nasid: u32) -> Self {
+        Self {
+            tlb_flush_nested,
+            invlpgb_count_max,
+            nasid,
+        }
+    }
+
     /// Returns the maximum count of pages to be flushed supported by the processor.
     #[inline]
     pub fn invlpgb_count_max(&self) -> u16 {
